@@ -4,7 +4,7 @@
   `equate(a, b)` whose two sides have the same σ-size; so it holds in every state reached by
   interleaving unit operations and consistent declarations in any order.
 -/
-import Proofs.PathSound
+import Proofs.PathTotal
 import Proofs.CanonAll
 
 namespace Measured
@@ -81,6 +81,30 @@ theorem mem_row_set {t : Table β} {a b a' x : UId} {v m : β}
       · simp only [haa] at h
         simp at h
 
+theorem mem_keys_set_self (t : Table β) (a b : UId) (v : β) : a ∈ (t.set a b v).map (·.1) := by
+  unfold Table.set
+  simp only
+  split
+  · next h =>
+    simp only [List.any_eq_true, beq_iff_eq] at h
+    obtain ⟨r, hr, hra⟩ := h
+    simp only [List.map_map, List.mem_map, Function.comp]
+    exact ⟨r, hr, by simp [hra]⟩
+  · simp
+
+theorem mem_keys_set_of_mem {t : Table β} {x : UId} (a b : UId) (v : β) (h : x ∈ t.map (·.1)) :
+    x ∈ (t.set a b v).map (·.1) := by
+  unfold Table.set
+  simp only
+  split
+  · simp only [List.map_map, List.mem_map, Function.comp] at h ⊢
+    obtain ⟨r, hr, hrx⟩ := h
+    refine ⟨r, hr, ?_⟩
+    by_cases hra : (r.1 == a) = true
+    · simp only [hra, ↓reduceIte]; rw [← hrx]; exact (by simpa using hra : r.1 = a).symm
+    · simp only [hra, Bool.false_eq_true, ↓reduceIte]; exact hrx
+  · simp only [List.map_append, List.mem_append]; exact Or.inl h
+
 end Table
 
 /-! ### `equate` -/
@@ -109,7 +133,8 @@ theorem equate_graphOK {c c' : Conv Rat} {a b : Qty Rat} (hg : GraphOK σ c)
     (ha : a.unit < c.st.units.length) (hb : b.unit < c.st.units.length)
     (hcons : a.mag.val * unitSz σ c.st a.unit = b.mag.val * unitSz σ c.st b.unit)
     (hx : CM.exec (equate a b) c = (.ok (), c')) :
-    GraphOK σ c' ∧ Ext c.st c'.st ∧ c'.offsets = c.offsets := by
+    GraphOK σ c' ∧ Ext c.st c'.st ∧ c'.offsets = c.offsets ∧
+      (GraphWF c → c.st.dimOfUnit a.unit = c.st.dimOfUnit b.unit → GraphWF c') := by
   unfold equate at hx
   obtain ⟨s0, c0, h0, hx⟩ := exec_bind_ok hx
   rw [exec_getSt] at h0
@@ -187,7 +212,7 @@ theorem equate_graphOK {c c' : Conv Rat} {a b : Qty Rat} (hg : GraphOK σ c)
     have hrat : c'.ratios = (c2.ratios.set a'.unit b'.unit r1).set b'.unit a'.unit r2 := by rw [← hc', ← hc4]
     have hoffs : c'.offsets = c2.offsets := by rw [← hc', ← hc4]
     refine ⟨⟨by rw [hst]; exact g2.canon, by rw [hst]; exact g2.inv, by rw [hst]; exact g2.reg, by rw [hst]; exact g2.one, ?_, ?_⟩,
-      by rw [hst]; exact f12.ext, by rw [hoffs]; exact f12.offsets⟩
+      by rw [hst]; exact f12.ext, by rw [hoffs]; exact f12.offsets, ?_⟩
     · intro x y m hm
       rw [hrat] at hm
       rw [hst]
@@ -204,6 +229,28 @@ theorem equate_graphOK {c c' : Conv Rat} {a b : Qty Rat} (hg : GraphOK σ c)
         · exact g2.nodes x y m hm
         · exact ⟨hAp, hBp⟩
       · exact ⟨hBp, hAp⟩
+    · intro hw hdab
+      have w2 : GraphWF c2 := hw.frame hg f12
+      have hdA : c2.st.dimOfUnit a'.unit = c.st.dimOfUnit a.unit := by
+        rw [f2.ext.dimOfUnit hA1, hAu, ← hc1]; exact unprefixedUnit_dim hg.inv ha
+      have hdB : c2.st.dimOfUnit b'.unit = c.st.dimOfUnit b.unit := by
+        rw [hBu, ← hc2, ← f1.ext.dimOfUnit hb]; exact unprefixedUnit_dim g1.inv hb1
+      refine ⟨?_, ?_⟩
+      · intro x y m hm
+        rw [hrat] at hm
+        rw [hst]
+        rcases Table.mem_row_set hm with hm | ⟨rfl, rfl, rfl⟩
+        · rcases Table.mem_row_set hm with hm | ⟨rfl, rfl, rfl⟩
+          · exact w2.dims x y m hm
+          · rw [hdA, hdB]; exact hdab
+        · rw [hdA, hdB]; exact hdab.symm
+      · intro x y m hm
+        rw [hrat] at hm ⊢
+        rcases Table.mem_row_set hm with hm | ⟨rfl, rfl, rfl⟩
+        · rcases Table.mem_row_set hm with hm | ⟨rfl, rfl, rfl⟩
+          · exact Table.mem_keys_set_of_mem _ _ _ (Table.mem_keys_set_of_mem _ _ _ (w2.closed x y m hm))
+          · exact Table.mem_keys_set_self _ _ _ _
+        · exact Table.mem_keys_set_of_mem _ _ _ (Table.mem_keys_set_self _ _ _ _)
 
 /-! ### histories -/
 
@@ -220,11 +267,12 @@ theorem units_graphOK {c : Conv Rat} (hg : GraphOK σ c) (ops : List Op) :
     σ-size; conversions that the path search settles directly.  (Conversions that go through the
     factor-matching planner are not in this fragment.) -/
 inductive Reach (σ : UId → Rat) : Conv Rat → Prop
-  | init {c : Conv Rat} : GraphOK σ c → c.offsets = [] → Reach σ c
+  | init {c : Conv Rat} : GraphOK σ c → GraphWF c → c.offsets = [] → Reach σ c
   | units {c : Conv Rat} (ops : List Op) : Reach σ c → Reach σ { c with st := run c.st ops }
   | equate {c c' : Conv Rat} {a b : Qty Rat} : Reach σ c →
       a.unit < c.st.units.length → b.unit < c.st.units.length →
       a.mag.val * unitSz σ c.st a.unit = b.mag.val * unitSz σ c.st b.unit →
+      c.st.dimOfUnit a.unit = c.st.dimOfUnit b.unit →
       CM.exec (Measured.equate a b) c = (.ok (), c') → Reach σ c'
   | direct {c c' c2 : Conv Rat} {q r : Qty Rat} {t : UId} {p : List (Hop Rat)} : Reach σ c →
       q.unit < c.st.units.length → t < c.st.units.length →
@@ -232,20 +280,23 @@ inductive Reach (σ : UId → Rat) : Conv Rat → Prop
       CM.exec (findPath q.unit t) { c with st := ((c.st.unprefixedUnit q.unit).1.unprefixedUnit t).1 } = (.ok p, c2) →
       p ≠ [] → Reach σ c'
 
-theorem reach_graphOK (hσ : ∀ k, σ k ≠ 0) {c : Conv Rat} (h : Reach σ c) : GraphOK σ c ∧ c.offsets = [] := by
+theorem reach_graphOK (hσ : ∀ k, σ k ≠ 0) {c : Conv Rat} (h : Reach σ c) :
+    GraphOK σ c ∧ c.offsets = [] ∧ GraphWF c := by
   induction h with
-  | init hg ho => exact ⟨hg, ho⟩
-  | units ops _ ih => exact ⟨(units_graphOK ih.1 ops).1, ih.2⟩
-  | equate _ ha hb hc hx ih =>
-    obtain ⟨g, _, ho⟩ := equate_graphOK ih.1 ha hb hc hx
-    exact ⟨g, by rw [ho]; exact ih.2⟩
+  | init hg hw ho => exact ⟨hg, ho, hw⟩
+  | units ops _ ih =>
+    obtain ⟨g, f⟩ := units_graphOK ih.1 ops
+    exact ⟨g, ih.2.1, ih.2.2.frame ih.1 f⟩
+  | equate _ ha hb hc hdim hx ih =>
+    obtain ⟨g, _, ho, hw⟩ := equate_graphOK ih.1 ha hb hc hx
+    exact ⟨g, by rw [ho]; exact ih.2.1, hw ih.2.2 hdim⟩
   | direct _ hq ht hx hp hne ih =>
-    obtain ⟨_, d, c2', hfp, hd⟩ := convert_direct_exact hσ ih.1 hq ht ih.2 hx
+    obtain ⟨_, d, c2', hfp, hd⟩ := convert_direct_exact hσ ih.1 hq ht ih.2.1 hx
     rw [hp] at hfp
     simp only [Prod.mk.injEq, Except.ok.injEq] at hfp
     obtain ⟨rfl, rfl⟩ := hfp
     obtain ⟨_, g, f⟩ := hd hne
-    exact ⟨g, by rw [f.offsets]; exact ih.2⟩
+    exact ⟨g, by rw [f.offsets]; exact ih.2.1, ih.2.2.frame ih.1 f⟩
 
 /-- **Every history.**  After any interleaving of unit operations, σ-consistent declarations and
     directly settled conversions, a conversion that the path search connects directly is exact. -/
@@ -257,8 +308,17 @@ theorem reach_convert_exact (hσ : ∀ k, σ k ≠ 0) {c c' : Conv Rat} (hr : Re
       CM.exec (findPath q.unit t)
         { c with st := ((c.st.unprefixedUnit q.unit).1.unprefixedUnit t).1 } = (.ok direct, c2) ∧
       (direct ≠ [] → r.mag.val * unitSz σ c.st t = q.mag.val * unitSz σ c.st q.unit) := by
-  obtain ⟨hg, ho⟩ := reach_graphOK hσ hr
+  obtain ⟨hg, ho, _⟩ := reach_graphOK hσ hr
   obtain ⟨hu, d, c2, hfp, hd⟩ := convert_direct_exact hσ hg hq ht ho h
   exact ⟨hu, d, c2, hfp, fun hne => (hd hne).1⟩
+
+/-- **Every history, C07 for the path search.**  In every reachable state the path search between two
+    units of one dimension returns (a path or nothing) and raises no exception of any kind. -/
+theorem reach_findPath_total (hσ : ∀ k, σ k ≠ 0) {c : Conv Rat} (hr : Reach σ c) {start stop : UId}
+    (hs : start < c.st.units.length) (ht : stop < c.st.units.length)
+    (hd : c.st.dimOfUnit start = c.st.dimOfUnit stop) :
+    ∃ p c', CM.exec (findPath start stop) c = (.ok p, c') := by
+  obtain ⟨hg, _, hw⟩ := reach_graphOK hσ hr
+  exact findPath_total hg hw hs ht hd
 
 end Measured
